@@ -254,6 +254,20 @@ func Add(a, b *Term) *Term {
 	return mk("+", a.Sort, a, b)
 }
 
+// IdxAdd builds the address off+i of a slice element. Unless off is the
+// literal 0 the sum is kept syntactically (even for i == 0), so that
+// quantified facts of the form  forall k. ... arr[off+k] ...  match ground
+// element terms by E-matching.
+func IdxAdd(off, i *Term) *Term {
+	if o, ok := intVal(off); ok && o == 0 {
+		return i
+	}
+	if _, ok := intVal(off); ok {
+		return Add(off, i)
+	}
+	return mk("idx", SInt, off, i)
+}
+
 func Sub(a, b *Term) *Term {
 	if x, ok := intVal(a); ok {
 		if y, ok := intVal(b); ok {
